@@ -5,7 +5,7 @@
    tied to the code by the C15 correspondence streams (checks/c15.py). *)
 From Coq Require Import ZArith String List Bool Floats.SpecFloat Permutation.
 Require Import Blots.Num Blots.gen.Builtins Blots.Ast Blots.Value Blots.Outcome Blots.BuiltinsAgg
-  Blots.proofs.Aggregates.
+  Blots.proofs.Aggregates Blots.proofs.AggPercentile Blots.proofs.AggPanics.
 Import ListNotations.
 Open Scope Z_scope.
 
@@ -185,3 +185,154 @@ Check C15_median_perm_invariant : forall l l',
   exists m m', bi_median (nums l) = Ok (VNum m) /\ bi_median (nums l') = Ok (VNum m') /\
                same_num m m'.
 Print Assumptions C15_median_perm_invariant.
+
+(* ---------------------------------------------------------------- percentile *)
+(* The code is nearest-rank (no interpolation): index = round(p / 100.0 * (n - 1)) computed in
+   doubles.  Hypotheses: p is a genuine double (valid_binary) in [0, 100]; the list is non-empty,
+   NaN-free and has at most 2^53 elements ((n - 1) as f64 is then exact; a longer Vec<f64> cannot
+   exist).  rank_of p l is that index. *)
+Theorem C15_percentile_index_in_range : forall p N,
+  valid p = true -> in_0_100 p = true -> 0 <= N <= 2^53 -> 0 <= percentile_index p N <= N.
+Proof. exact index_in_range. Qed.
+Check C15_percentile_index_in_range : forall p N,
+  valid p = true -> in_0_100 p = true -> 0 <= N <= 2^53 -> 0 <= percentile_index p N <= N.
+Print Assumptions C15_percentile_index_in_range.
+
+(* percentile(l, p) is an order statistic of l, in particular an element of l *)
+Theorem C15_percentile_order_stat : forall l p,
+  l <> [] -> nan_free l = true -> len l <= 2^53 -> valid p = true -> in_0_100 p = true ->
+  exists v, bi_percentile [VList (nums l); VNum p] = Ok (VNum v) /\
+            is_order_stat l (rank_of p l) v /\ (rank_of p l < length l)%nat.
+Proof. exact percentile_order_stat. Qed.
+Check C15_percentile_order_stat : forall l p,
+  l <> [] -> nan_free l = true -> len l <= 2^53 -> valid p = true -> in_0_100 p = true ->
+  exists v, bi_percentile [VList (nums l); VNum p] = Ok (VNum v) /\
+            is_order_stat l (rank_of p l) v /\ (rank_of p l < length l)%nat.
+Print Assumptions C15_percentile_order_stat.
+
+Theorem C15_percentile_elem : forall l p,
+  l <> [] -> nan_free l = true -> len l <= 2^53 -> valid p = true -> in_0_100 p = true ->
+  exists v, bi_percentile [VList (nums l); VNum p] = Ok (VNum v) /\ In v l.
+Proof. exact percentile_elem. Qed.
+Check C15_percentile_elem : forall l p,
+  l <> [] -> nan_free l = true -> len l <= 2^53 -> valid p = true -> in_0_100 p = true ->
+  exists v, bi_percentile [VList (nums l); VNum p] = Ok (VNum v) /\ In v l.
+Print Assumptions C15_percentile_elem.
+
+(* non-decreasing in p *)
+Theorem C15_percentile_mono : forall l p q,
+  l <> [] -> nan_free l = true -> len l <= 2^53 ->
+  valid p = true -> in_0_100 p = true -> valid q = true -> in_0_100 q = true -> nle p q ->
+  exists v w, bi_percentile [VList (nums l); VNum p] = Ok (VNum v) /\
+              bi_percentile [VList (nums l); VNum q] = Ok (VNum w) /\ nle v w.
+Proof. exact percentile_mono. Qed.
+Check C15_percentile_mono : forall l p q,
+  l <> [] -> nan_free l = true -> len l <= 2^53 ->
+  valid p = true -> in_0_100 p = true -> valid q = true -> in_0_100 q = true -> nle p q ->
+  exists v w, bi_percentile [VList (nums l); VNum p] = Ok (VNum v) /\
+              bi_percentile [VList (nums l); VNum q] = Ok (VNum w) /\ nle v w.
+Print Assumptions C15_percentile_mono.
+
+(* percentile(l, 0) = min  (p = +0 or -0), percentile(l, 100) = max, as numbers *)
+Theorem C15_percentile_0_min : forall l p, is_zero p = true ->
+  l <> [] -> nan_free l = true -> len l <= 2^53 ->
+  exists v m, bi_percentile [VList (nums l); VNum p] = Ok (VNum v) /\
+              bi_min (nums l) = Ok (VNum m) /\ neq v m.
+Proof. exact percentile_0_min. Qed.
+Check C15_percentile_0_min : forall l p, is_zero p = true ->
+  l <> [] -> nan_free l = true -> len l <= 2^53 ->
+  exists v m, bi_percentile [VList (nums l); VNum p] = Ok (VNum v) /\
+              bi_min (nums l) = Ok (VNum m) /\ neq v m.
+Print Assumptions C15_percentile_0_min.
+
+Theorem C15_percentile_100_max : forall l,
+  l <> [] -> nan_free l = true -> len l <= 2^53 ->
+  exists v m, bi_percentile [VList (nums l); VNum n100] = Ok (VNum v) /\
+              bi_max (nums l) = Ok (VNum m) /\ neq v m.
+Proof. exact percentile_100_max. Qed.
+Check C15_percentile_100_max : forall l,
+  l <> [] -> nan_free l = true -> len l <= 2^53 ->
+  exists v m, bi_percentile [VList (nums l); VNum n100] = Ok (VNum v) /\
+              bi_max (nums l) = Ok (VNum m) /\ neq v m.
+Print Assumptions C15_percentile_100_max.
+
+Theorem C15_percentile_perm_invariant : forall l l' p, Permutation l l' ->
+  l <> [] -> nan_free l = true -> len l <= 2^53 -> valid p = true -> in_0_100 p = true ->
+  exists v v', bi_percentile [VList (nums l); VNum p] = Ok (VNum v) /\
+               bi_percentile [VList (nums l'); VNum p] = Ok (VNum v') /\ neq v v'.
+Proof. exact percentile_perm_invariant. Qed.
+Check C15_percentile_perm_invariant : forall l l' p, Permutation l l' ->
+  l <> [] -> nan_free l = true -> len l <= 2^53 -> valid p = true -> in_0_100 p = true ->
+  exists v v', bi_percentile [VList (nums l); VNum p] = Ok (VNum v) /\
+               bi_percentile [VList (nums l'); VNum p] = Ok (VNum v') /\ neq v v'.
+Print Assumptions C15_percentile_perm_invariant.
+
+Example percentile_hyp_satisfiable :
+  let p := nb 0x4040a66666666666 (* 33.3 *) in let l := [n1; n100; nnzero; n2] in
+  valid p = true /\ in_0_100 p = true /\ nan_free l = true /\ len l <= 2^53 /\
+  bi_percentile [VList (nums l); VNum p] = Ok (VNum n1).
+Proof. vm_compute. repeat split; congruence. Qed.
+
+(* ---------------------------------------------------------------- panics: the known findings *)
+(* An arity-respecting call of any of the ten built-ins aborts exactly on the two open
+   known-finding classes (known_C15): a NaN among >= 2 numbers reaching the sort of median /
+   percentile, and percentile of an empty list (with p in range).  args_ok: a percentile call has
+   a genuine double p and a list of at most 2^53 elements. *)
+Theorem C15_panic_iff_known : forall a args, args_ok args ->
+  (checked_call a args = Panic <-> known_C15 a args = true).
+Proof. exact panic_iff_known. Qed.
+Check C15_panic_iff_known : forall a args, args_ok args ->
+  (checked_call a args = Panic <-> known_C15 a args = true).
+Print Assumptions C15_panic_iff_known.
+
+(* debug (overflow-checked) and release builds give the same outcome for percentile *)
+Theorem C15_percentile_build_independent : forall args,
+  bi_percentile_gen true args = bi_percentile_gen false args.
+Proof. exact percentile_build_independent. Qed.
+Check C15_percentile_build_independent : forall args,
+  bi_percentile_gen true args = bi_percentile_gen false args.
+Print Assumptions C15_percentile_build_independent.
+
+(* the statements "median / percentile never abort" are refuted by the faithful model; the
+   witnesses are the known-finding witnesses and are replayed on the implementation by the check *)
+Lemma C15_median_nan_refuted :
+  exists args, args_ok args /\ checked_call AMedian args = Panic.
+Proof.
+  exists [VNum nnan; VNum n1]. split; [intros vs p H; discriminate|vm_compute; reflexivity].
+Qed.
+Lemma C15_percentile_nan_refuted :
+  exists args, args_ok args /\ checked_call APercentile args = Panic.
+Proof.
+  exists [VList [VNum nnan; VNum n1]; VNum (nb 0x4049000000000000)]. split.
+  - intros vs p H. injection H as <- <-. split; vm_compute; congruence.
+  - vm_compute. reflexivity.
+Qed.
+Lemma C15_percentile_empty_refuted :
+  exists args, args_ok args /\ checked_call APercentile args = Panic.
+Proof.
+  exists [VList []; VNum (nb 0x4049000000000000)]. split.
+  - intros vs p H. injection H as <- <-. split; vm_compute; congruence.
+  - vm_compute. reflexivity.
+Qed.
+
+(* the proposed repair (fixes/C15-median-percentile-nan-empty.diff, modelled by bi_median_fixed /
+   bi_percentile_fixed): never aborts, returns NaN (or an error for the empty list) on the known
+   classes, and changes nothing outside them *)
+Theorem C15_fixed_no_panic : forall a args, args_ok args -> checked_call_fixed a args <> Panic.
+Proof. exact fixed_no_panic. Qed.
+Check C15_fixed_no_panic : forall a args, args_ok args -> checked_call_fixed a args <> Panic.
+Print Assumptions C15_fixed_no_panic.
+
+Theorem C15_fixed_conservative : forall a args, args_ok args ->
+  known_C15 a args = false -> checked_call_fixed a args = checked_call a args.
+Proof. exact fixed_conservative. Qed.
+Check C15_fixed_conservative : forall a args, args_ok args ->
+  known_C15 a args = false -> checked_call_fixed a args = checked_call a args.
+Print Assumptions C15_fixed_conservative.
+
+Theorem C15_fixed_on_known : forall a args, known_C15 a args = true ->
+  bi_agg_fixed a args = Ok (VNum nnan) \/ (a = APercentile /\ bi_agg_fixed a args = Err).
+Proof. exact fixed_on_known. Qed.
+Check C15_fixed_on_known : forall a args, known_C15 a args = true ->
+  bi_agg_fixed a args = Ok (VNum nnan) \/ (a = APercentile /\ bi_agg_fixed a args = Err).
+Print Assumptions C15_fixed_on_known.
